@@ -86,10 +86,18 @@ def pArr : P Arr := do
 def pEnvEntry : P (Nat × Arr) := do
   let id ← P.nat; let a ← pArr; pure (id, a)
 
+/-- `sb` operations may carry the TV weight `mu` (needed only by the arithmetic): `... <data> tvw <coef>` -/
+def pOpX : P (Op × Option Coef) := do
+  let op ← pOp
+  fun s => match s with
+    | "tvw" :: rest => (pCoef.run rest).map fun (c, s') => ((op, some c), s')
+    | _ => some ((op, none), s)
+
 def dataOf : Op → Option Nat
   | .jacCall _ _ d => some d
   | .mgCall _ d => some d
   | .h1 _ _ _ _ _ d => some d
+  | .sb _ _ _ _ _ d => some d
   | _ => none
 
 def flip0 (a : Arr) : Arr :=
@@ -161,8 +169,10 @@ def scenario : P String := do
   let _ ← P.tok; let nw ← P.nat
   let _ ← P.tok; let envl ← P.list pEnvEntry
   let _ ← P.tok; let datas ← P.list pArr
-  let _ ← P.tok; let ops ← P.list pOp
+  let _ ← P.tok; let opsx ← P.list pOpX
   P.done
+  let ops := opsx.map (·.1)
+  let mus := opsx.map (·.2)
   let env : Nat → Option Arr := fun id => (envl.find? fun e => e.1 == id).map (·.2)
   let w0 := World.init js ms as nw
   let rec go (pre : List Op) : List Op → List String
@@ -176,9 +186,16 @@ def scenario : P String := do
           match datas[d]? with
           | none => "-"
           | some x =>
-            match evalOut env op x (flip0 x) a with
-            | some rs => showRats (interleave rs)
-            | none => "!"
+            match op, a, (mus[pre.length]?).join with
+            | .sb _ ell omega dim _ _, .solves rs, some mu =>
+              (match evalSB env dim mu ell omega rs x with
+               | some r => showRats r.data.toList
+               | none => "!")
+            | .sb .., _, _ => "-"
+            | _, _, _ =>
+              match evalOut env op x (flip0 x) a with
+              | some rs => showRats (interleave rs)
+              | none => "!"
       ((if a == b then "eq " else "ne ") ++ showOut a ++ " | " ++ num ++ " | " ++ traceOut w0 op a) :: go (pre ++ [op]) rest
   pure (" ; ".intercalate (go [] ops))
 
